@@ -139,6 +139,15 @@ theorem applyPrimary_seen (cfg : Cfg) (st : St) (now : Nat) (c : Ctr) :
   simp only [applyPrimary, apTs]
   split <;> simp [timestamp_seen]
 
+theorem sendAsIs_seen (cfg : Cfg) (st : St) (now : Nat) (sp : SendParams) (c : Ctr) :
+    (sendAsIs cfg st now sp c).1.seen = st.seen := rfl
+
+theorem sendAsIs_fwdQ (cfg : Cfg) (st : St) (now : Nat) (sp : SendParams) (c : Ctr) :
+    (sendAsIs cfg st now sp c).1.fwdQ = st.fwdQ := rfl
+
+theorem sendAsIs_ctr (cfg : Cfg) (st : St) (now : Nat) (sp : SendParams) (c : Ctr) :
+    (sendAsIs cfg st now sp c).2.1 = c := rfl
+
 theorem sendBundle_seen (cfg : Cfg) (st : St) (now : Nat) (sp : SendParams) (c : Ctr) :
     (sendBundle cfg st now sp c).1.seen = st.seen := by
   simp [sendBundle, applyPrimary_seen]
@@ -185,21 +194,21 @@ theorem doFwd_plain (cfg : Cfg) (st : St) (now : Nat) (sp : SendParams) :
         (fwdEdit cfg { st with fwdQ := q } now c0).2.1 now [] (by simp)
       simpa [fwdEdit_seen] using this
     · split
-      · simp only [finish_eff, finish_seen, sendBundle_seen, fwdEdit_seen, List.mem_cons]
+      · simp only [finish_eff, finish_seen, sendAsIs_seen, fwdEdit_seen, List.mem_cons]
         refine ⟨?_, trivial⟩
         rintro e (h | h)
         · subst h; simp [plain]
         · exact finishEff_plain _ e h
-      · simp only [finish_eff, finish_seen, sendBundle_seen, fwdEdit_seen, List.mem_cons]
+      · simp only [finish_eff, finish_seen, sendAsIs_seen, fwdEdit_seen, List.mem_cons]
         refine ⟨?_, trivial⟩
         rintro e (h | h)
         · subst h; simp [plain]
         · exact finishEff_plain _ e h
-      · have := fwdFail_plain (sendBundle cfg (fwdEdit cfg { st with fwdQ := q } now c0).1 now sp
+      · have := fwdFail_plain (sendAsIs cfg (fwdEdit cfg { st with fwdQ := q } now c0).1 now sp
             (fwdEdit cfg { st with fwdQ := q } now c0).2.1).1
-          (sendBundle cfg (fwdEdit cfg { st with fwdQ := q } now c0).1 now sp
+          (sendAsIs cfg (fwdEdit cfg { st with fwdQ := q } now c0).1 now sp
             (fwdEdit cfg { st with fwdQ := q } now c0).2.1).2.1 now [] (by simp)
-        simpa [sendBundle_seen, fwdEdit_seen] using this
+        simpa [sendAsIs_seen, fwdEdit_seen] using this
 
 theorem sendReport_plain (cfg : Cfg) (st : St) (now : Nat) (sp : SendParams) :
     (∀ e ∈ (sendReport cfg st now sp).2, plain e) ∧ (sendReport cfg st now sp).1.seen = st.seen := by
